@@ -673,3 +673,44 @@ func c18NonInterference(r *Run, state string) {
 	}
 	r.Sample("non-interference", map[string]any{"state": state, "menu": len(menu), "pairs": len(menu) * len(menu)})
 }
+
+func init() {
+	replayers["schedule"] = func(rp *Replay) int {
+		fmt.Println(" data keys:", sortedKeys(rp.Data))
+		if sw, ok := rp.Data["simulated_wire"].(string); ok {
+			// discarded-transaction non-interference: q alone vs q after simulate-and-discard(s)
+			mk := func() *World {
+				w, err := rp.World(KindDB)
+				if err != nil {
+					panic(err)
+				}
+				for _, a := range rp.Actions {
+					w.Apply(a)
+				}
+				return w
+			}
+			s := Action{Type: fmt.Sprint(rp.Data["simulated_type"]), Hex: sw, Desc: fmt.Sprint(rp.Data["simulated_then_discarded"])}
+			w1 := mk()
+			before := queryDigest(w1)
+			so := w1.Simulate(s)
+			fmt.Printf(" simulate-and-discard: %s -> %s %s\n", s.Desc, so.Class(), so.Err)
+			fmt.Println(" queries unchanged by the discarded transaction:", before == queryDigest(w1))
+			if qw, ok := rp.Data["then_wire"].(string); ok {
+				q := Action{Type: fmt.Sprint(rp.Data["then_type"]), Hex: qw, Desc: fmt.Sprint(rp.Data["then"])}
+				o1 := w1.Apply(q)
+				w2 := mk()
+				o2 := w2.Apply(q)
+				fmt.Printf(" %s\n   alone:          %.300s\n   after simulate: %.300s\n   identical: %v\n", q.Desc, o2.Digest(), o1.Digest(), o1.Digest() == o2.Digest() && HashBytes(w1.Dump()) == HashBytes(w2.Dump()))
+			}
+			return 0
+		}
+		if sch, ok := rp.Data["schedule"].([]any); ok {
+			fmt.Println(" schedule (instance per step; 3 = query-only instance):", sch, " shared keeper:", rp.Data["shared_keeper"], " diverged at step", rp.Data["diverged_at"])
+			fmt.Println(" re-run with: ./run.sh check C18 quick   (the interleaving is re-enumerated deterministically)")
+		}
+		if rr, ok := rp.Data["race_report"]; ok {
+			fmt.Println(rr)
+		}
+		return 0
+	}
+}
